@@ -77,7 +77,7 @@ def to_layout(L, seed):
                         "crc": {"sub": "substream", "folder": "folder", "none": "none"}[fo["crc"]]})
     hdr = R.choice(["raw", "lzma", "lzma", "aes"])
     lay = {"files": files, "omit_numunpack_if_all_one": bool(L["omitnum"]), "emptyfile_vector": L["efvec"],
-           "packpos": R.choice([0, 0, 3, 17]), "packcrc": R.random() < 0.4, "dummy": R.choice([None, None, 0, 3, 130]),
+           "packpos": R.choice([0, 0, 3, 17]), "packcrc": R.choice([False, False, True, True, "partial"]), "dummy": R.choice([None, None, 0, 3, 130]),
            "attrib_vector": R.choice(["auto", "explicit"]), "time_vector": R.choice(["auto", "explicit"]), "number_pad": R.choice([0, 0, 1, 2, 8]),
            "header": hdr, "header_folder_crc": R.random() < 0.7}
     if folders:
